@@ -589,14 +589,21 @@ fn generate_layout(rng: &mut Rng, thorough: bool) -> Workload {
         .iter()
         .map(|i| i.name.starts_with("./") || i.name.contains("/../"))
         .collect();
+    // names spelt relative to "here" matter most where two lookups exist side by side:
+    // classic programs compiled without options
+    let (dotty_classic, dotty_entry) = (dotty && rng.chance(1, 2), dotty && rng.chance(1, 2));
     Workload {
-        sigil: rng.below(SIGILS.len() as u64) as u8,
+        sigil: if dotty_classic {
+            0
+        } else {
+            rng.below(SIGILS.len() as u64) as u8
+        },
         ndirs,
         search,
         incs,
         datas,
         main_refs,
-        entry: rng.below(5) as u8,
+        entry: if dotty_entry { rng.range(2, 3) as u8 } else { rng.below(5) as u8 },
         transient_pm: if rng.chance(1, 10) { 150 } else { 0 },
         nested_mod,
         hidden,
